@@ -140,11 +140,13 @@ fn k_add_edge_line() {
         assert!(r.bounds_top <= yt >> 2 && r.bounds_bottom >= (yb + 3) >> 2, "bounds cover the edge vertically");
         assert!(r.bounds_left <= xt >> 2 && r.bounds_left <= xb >> 2 && r.bounds_right >= (xt + 3) >> 2 && r.bounds_right >= (xb + 3) >> 2, "bounds cover the edge horizontally");
         assert!(r.bounds_top == RH.min(yt >> 2) && r.bounds_bottom == 0.max((yb + 3) >> 2), "bounds are tight (exactly the first edge's rows)");
+        assert!(4 * r.bounds_top.max(0) <= (4 * r.bounds_bottom).min(r.height), "RI: the row range rasterize()/reset() use is well-formed");
         let cury = yt.max(0);
         if cury >= yb {
             assert!(all_buckets_empty_except(&r, -1), "edge that ends before the first sample row is dropped");
         } else {
             assert!(all_buckets_empty_except(&r, cury), "only the bucket of the first visible sample row is touched");
+            assert!(4 * r.bounds_top.max(0) <= cury && cury < (4 * r.bounds_bottom).min(r.height), "RI: the bucket lies inside the rows that rasterize() visits and reset() clears");
             let e = unsafe { r.edge_starts[cury as usize].unwrap().as_ref() };
             assert!(e.next.is_none(), "bucket was empty before");
             assert!(e.x2 == xb && e.y2 == yb, "bottom end point");
@@ -161,4 +163,169 @@ fn k_add_edge_line() {
     kani::cover!(!dropped0 && yt < 0 && yb > 0);
     kani::cover!(!dropped0 && !down && xb < xt);
     kani::cover!(dropped0 && yt == yb);
+}
+
+// ------------------------------------------------------------------ list algorithms (C01 #6) -- raw-pointer code, bounded
+fn list_to_array(mut p: Option<NonNull<ActiveEdge>>, out: &mut [usize; 5]) -> usize {
+    let mut n = 0;
+    let mut guard = 0;
+    while let Some(e) = p {
+        if guard >= 5 { return 99; }
+        out[n] = e.as_ptr() as usize;
+        n += 1;
+        p = unsafe { e.as_ref() }.next;
+        guard += 1;
+    }
+    n
+}
+fn is_sorted(mut p: Option<NonNull<ActiveEdge>>) -> bool {
+    let mut ok = true;
+    let mut guard = 0;
+    while let Some(e) = p {
+        if guard >= 5 { return false; }
+        let e = unsafe { e.as_ref() };
+        if let Some(n) = e.next { if e.fullx > unsafe { n.as_ref() }.fullx { ok = false; } }
+        p = e.next;
+        guard += 1;
+    }
+    ok
+}
+fn count_of(arr: &[usize; 5], n: usize, x: usize) -> usize {
+    let mut c = 0; let mut i = 0;
+    while i < 5 { if i < n && arr[i] == x { c += 1; } i += 1; }
+    c
+}
+
+// @ob id=K.sort_edges props=C01 kind=bounded:edges=3 tier=quick timeout=900 fns=Rasterizer::sort_edges
+// @+ desc="sort_edges on an active list of 3 edges with symbolic x: the result is a permutation of the same edge records sorted by fullx (no edge lost, duplicated or modified)"
+#[kani::proof]
+#[kani::unwind(8)]
+fn k_sort_edges() {
+    let mut r = Rasterizer::new(1, 1);
+    let xs: [i32; 3] = kani::any();
+    let mut edges = [mk_edge(xs[0], 1), mk_edge(xs[1], -1), mk_edge(xs[2], 1)];
+    let addr = [&edges[0] as *const _ as usize, &edges[1] as *const _ as usize, &edges[2] as *const _ as usize];
+    r.active_edges = link(&mut edges, 3);
+    r.sort_edges();
+    let mut out = [0usize; 5];
+    let n = list_to_array(r.active_edges, &mut out);
+    assert!(n == 3, "same number of edges");
+    assert!(count_of(&out, n, addr[0]) == 1 && count_of(&out, n, addr[1]) == 1 && count_of(&out, n, addr[2]) == 1, "permutation of the same records");
+    assert!(is_sorted(r.active_edges), "sorted by x");
+    assert!(edges[0].fullx == xs[0] && edges[1].fullx == xs[1] && edges[2].fullx == xs[2], "edge records not modified");
+    kani::cover!(xs[0] > xs[1] && xs[1] > xs[2]);
+}
+
+// @ob id=K.step_edges props=C01,C08 kind=bounded:edges=3 tier=quick timeout=900 fns=Rasterizer::step_edges,ActiveEdge::step
+// @+ desc="step_edges on 3 line edges: every edge advances once (fullx += slope_x); exactly the edges with cur_y+1 >= y2 are unlinked, the others keep their relative order"
+#[kani::proof]
+#[kani::unwind(8)]
+fn k_step_edges() {
+    let mut r = Rasterizer::new(1, 1);
+    let xs: [i32; 3] = kani::any();
+    let sl: [i32; 3] = kani::any();
+    let y2: [i32; 3] = kani::any();
+    kani::assume(xs[0] > -(1 << 28) && xs[0] < (1 << 28) && xs[1] > -(1 << 28) && xs[1] < (1 << 28) && xs[2] > -(1 << 28) && xs[2] < (1 << 28));
+    kani::assume(sl[0] > -(1 << 28) && sl[0] < (1 << 28) && sl[1] > -(1 << 28) && sl[1] < (1 << 28) && sl[2] > -(1 << 28) && sl[2] < (1 << 28));
+    let mut edges = [mk_edge(xs[0], 1), mk_edge(xs[1], -1), mk_edge(xs[2], 1)];
+    let mut i = 0;
+    while i < 3 { edges[i].slope_x = sl[i]; edges[i].y2 = y2[i]; i += 1; }
+    let addr = [&edges[0] as *const _ as usize, &edges[1] as *const _ as usize, &edges[2] as *const _ as usize];
+    r.active_edges = link(&mut edges, 3);
+    r.cur_y = kani::any();
+    kani::assume(r.cur_y >= 0 && r.cur_y < 100000);
+    let cy = r.cur_y;
+    r.step_edges();
+    let mut out = [0usize; 5];
+    let n = list_to_array(r.active_edges, &mut out);
+    let mut exp = [0usize; 5];
+    let mut en = 0;
+    i = 0;
+    while i < 3 { if !(cy + 1 >= y2[i]) { exp[en] = addr[i]; en += 1; } i += 1; }
+    assert!(n == en, "exactly the finished edges are removed");
+    i = 0;
+    while i < 3 { if i < en { assert!(out[i] == exp[i], "survivors keep their order"); } i += 1; }
+    assert!(edges[0].fullx == xs[0] + sl[0] && edges[1].fullx == xs[1] + sl[1] && edges[2].fullx == xs[2] + sl[2], "every edge stepped exactly once");
+    kani::cover!(en == 1);
+    kani::cover!(en == 3);
+}
+
+fn insert_contract(na: usize, nn: usize) {
+    let mut r = Rasterizer::new(1, 1);
+    let xs: [i32; 4] = kani::any();
+    kani::assume(xs[0] <= xs[1]);
+    let mut act = [mk_edge(xs[0], 1), mk_edge(xs[1], -1)];
+    let mut new = [mk_edge(xs[2], 1), mk_edge(xs[3], -1)];
+    let addr = [&act[0] as *const _ as usize, &act[1] as *const _ as usize, &new[0] as *const _ as usize, &new[1] as *const _ as usize];
+    r.active_edges = link(&mut act, na);
+    r.cur_y = 2;
+    r.edge_starts[2] = link(&mut new, nn);
+    r.insert_starting_edges();
+    let mut out = [0usize; 5];
+    let n = list_to_array(r.active_edges, &mut out);
+    assert!(n == na + nn, "all edges present");
+    let mut k = 0;
+    while k < 4 {
+        let expect = if (k < 2 && k < na) || (k >= 2 && k - 2 < nn) { 1 } else { 0 };
+        assert!(count_of(&out, n, addr[k]) == expect, "permutation of active ∪ bucket");
+        k += 1;
+    }
+    assert!(is_sorted(r.active_edges), "sorted by x");
+    kani::cover!(n == na + nn);
+}
+// @ob id=K.insert_starting_edges_12 props=C01 kind=bounded:active=1,new=2 tier=quick timeout=900 fns=Rasterizer::insert_starting_edges
+// @+ desc="insert_starting_edges with 1 active edge and 2 new edges in the current row's bucket (any order, symbolic x): the active list becomes the sorted permutation of all records"
+#[kani::proof]
+#[kani::unwind(8)]
+fn k_insert_starting_edges_12() { insert_contract(1, 2); }
+// @ob id=K.insert_starting_edges_21 props=C01 kind=bounded:active=2,new=1 tier=quick timeout=900 fns=Rasterizer::insert_starting_edges
+// @+ desc="insert_starting_edges with 2 sorted active edges and 1 new edge: sorted permutation of all records"
+#[kani::proof]
+#[kani::unwind(8)]
+fn k_insert_starting_edges_21() { insert_contract(2, 1); }
+// @ob id=K.insert_starting_edges_02 props=C01 kind=bounded:active=0,new=2 tier=quick timeout=900 fns=Rasterizer::insert_starting_edges
+// @+ desc="insert_starting_edges with no active edge and 2 new edges: sorted permutation of the bucket"
+#[kani::proof]
+#[kani::unwind(8)]
+fn k_insert_starting_edges_02() { insert_contract(0, 2); }
+
+// ------------------------------------------------------------------ idle / reset (C10 #1, #2)
+fn idle(r: &Rasterizer) -> bool {
+    let mut ok = r.active_edges.is_none();
+    let mut i = 0;
+    while i < r.edge_starts.len() { if r.edge_starts[i].is_some() { ok = false; } i += 1; }
+    ok && r.bounds_bottom == 0 && r.bounds_right == 0 && r.bounds_top == dot2_to_int(r.height) && r.bounds_left == dot2_to_int(r.width)
+}
+
+// @ob id=K.reset_idle props=C10,C07 kind=bounded:height=2px tier=quick timeout=900 fns=Rasterizer::reset
+// @+ desc="reset(): from ANY state satisfying the rasteriser invariant RI (every non-empty bucket index i has 4*max(bounds_top,0) <= i < min(4*bounds_bottom,height); bounds_bottom < bounds_top implies no bucket and no active edge) the rasteriser is idle afterwards: all buckets empty, no active edges, bounds at their initial values; both branches, debug assertions included"
+#[kani::proof]
+#[kani::unwind(10)]
+fn k_reset_idle() {
+    let mut r = Rasterizer::new(3, 2); // 8 buckets
+    let mut e = mk_edge(0, 1);
+    let p = Some(NonNull::from(&mut e));
+    r.bounds_top = kani::any(); r.bounds_bottom = kani::any(); r.bounds_left = kani::any(); r.bounds_right = kani::any();
+    kani::assume(r.bounds_top >= -1000 && r.bounds_top <= 1000 && r.bounds_bottom >= -1000 && r.bounds_bottom <= 1000);
+    let occ: [bool; 8] = kani::any();
+    let lo = 4 * r.bounds_top.max(0);
+    let hi = (4 * r.bounds_bottom).min(r.height);
+    let mut i = 0;
+    while i < 8 {
+        if occ[i] { kani::assume(lo <= i as i32 && (i as i32) < hi); r.edge_starts[i] = p; }
+        i += 1;
+    }
+    if kani::any() { r.active_edges = p; }
+    if r.bounds_bottom >= r.bounds_top {
+        // RI (established by add_edge, K.add_edge_line): the row range is well-formed
+        kani::assume(lo <= hi);
+    }
+    if r.bounds_bottom < r.bounds_top {
+        // "no edge accepted since the last reset": bounds are the initial ones, nothing is linked
+        kani::assume(r.active_edges.is_none() && r.bounds_bottom == 0 && r.bounds_right == 0 && r.bounds_top == 2 && r.bounds_left == 3);
+    }
+    r.reset();
+    assert!(idle(&r), "rasteriser idle after reset");
+    kani::cover!(occ[7] && occ[0]);
+    kani::cover!(r.bounds_bottom < r.bounds_top);
 }
